@@ -235,4 +235,81 @@ Proof.
   intros x. split; [apply union_finish_incl|apply union_finish_in; exact Hinj].
 Qed.
 
+(** ** the de-duplication after a step of a relative location path ([step_dedup]) *)
+Lemma step_dedup_incl l : forall s x, In x (step_dedup_from doc s l) -> In x l.
+Proof.
+  induction l as [|y t IH]; intros s x H; cbn [step_dedup_from] in H; [destruct H|].
+  destruct (key doc y =? 0).
+  - destruct H as [->|H]; [left; reflexivity|right; apply (IH _ _ H)].
+  - destruct (existsb (N.eqb (key doc y)) s).
+    + right. apply (IH _ _ H).
+    + destruct H as [->|H]; [left; reflexivity|right; apply (IH _ _ H)].
+Qed.
+
+(** every node of [l] is kept, or its key was seen before, or a node with its key is kept *)
+Lemma step_dedup_cover l : forall s x, In x l ->
+  In x (step_dedup_from doc s l) \/ In (key doc x) s \/
+  exists y, In y (step_dedup_from doc s l) /\ In y l /\ key doc y = key doc x.
+Proof.
+  induction l as [|y t IH]; intros s x H; [destruct H|]. cbn [step_dedup_from].
+  destruct (key doc y =? 0) eqn:E0.
+  - destruct H as [->|H]; [left; left; reflexivity|].
+    destruct (IH s x H) as [Hk|[Hk|[z [Hz [Hzt Ez]]]]].
+    + left. right. exact Hk.
+    + right. left. exact Hk.
+    + right. right. exists z. split; [right; exact Hz|split; [right; exact Hzt|exact Ez]].
+  - destruct (existsb (N.eqb (key doc y)) s) eqn:E.
+    + destruct H as [->|H]; [right; left; apply existsb_eqb_In; exact E|].
+      destruct (IH s x H) as [Hk|[Hk|[z [Hz [Hzt Ez]]]]].
+      * left. exact Hk.
+      * right. left. exact Hk.
+      * right. right. exists z. split; [exact Hz|split; [right; exact Hzt|exact Ez]].
+    + destruct H as [->|H]; [left; left; reflexivity|].
+      destruct (IH (key doc y :: s) x H) as [Hk|[[Hk|Hk]|[z [Hz [Hzt Ez]]]]].
+      * left. right. exact Hk.
+      * right. right. exists y. split; [left; reflexivity|split; [left; reflexivity|exact Hk]].
+      * right. left. exact Hk.
+      * right. right. exists z. split; [right; exact Hz|split; [right; exact Hzt|exact Ez]].
+Qed.
+
+(** on a list whose keys identify its nodes the de-duplication keeps the set *)
+Lemma step_dedup_in l x : key_inj l -> (In x (step_dedup doc l) <-> In x l).
+Proof.
+  intros Hinj. split; [apply step_dedup_incl|]. intros Hx. unfold step_dedup.
+  destruct (step_dedup_cover l [] x Hx) as [H|[[]|[y [Hy [Hyl Ey]]]]]; [exact H|].
+  assert (y = x) by (apply Hinj; assumption). subst y. exact Hy.
+Qed.
+
+(** with non-zero keys the kept nodes have pairwise distinct keys, none of them seen before *)
+Lemma step_dedup_nodup_keys l : (forall x, In x l -> key doc x <> 0) -> forall s,
+  NoDup (map (key doc) (step_dedup_from doc s l)) /\
+  (forall x, In x (step_dedup_from doc s l) -> ~ In (key doc x) s).
+Proof.
+  induction l as [|y t IH]; intros Hnz s; cbn [step_dedup_from]; [split; [constructor|intros x []]|].
+  assert (Hnzt : forall x, In x t -> key doc x <> 0) by (intros x Hx; apply Hnz; right; exact Hx).
+  destruct (N.eqb_spec (key doc y) 0) as [E0|E0]; [exfalso; apply (Hnz y); [left; reflexivity|exact E0]|].
+  destruct (existsb (N.eqb (key doc y)) s) eqn:E; [apply (IH Hnzt s)|].
+  destruct (IH Hnzt (key doc y :: s)) as [IH1 IH2]. split.
+  - cbn [map]. constructor; [|exact IH1]. intros Hin. apply in_map_iff in Hin. destruct Hin as [z [Ez Hz]].
+    apply (IH2 z Hz). left. symmetry. exact Ez.
+  - intros x [->|Hx].
+    + intros Hin. apply existsb_eqb_In in Hin. congruence.
+    + intros Hin. apply (IH2 x Hx). right. exact Hin.
+Qed.
+
+Lemma step_dedup_nodup l : (forall x, In x l -> key doc x <> 0) -> NoDup (step_dedup doc l).
+Proof.
+  intros Hnz. destruct (step_dedup_nodup_keys l Hnz []) as [H _]. unfold step_dedup.
+  clear -H. induction (step_dedup_from doc [] l) as [|x t IH]; [constructor|].
+  cbn [map] in H. inversion H as [|k ks Hk Hks]; subst. constructor; [|apply IH; exact Hks].
+  intros Hin. apply Hk. apply in_map. exact Hin.
+Qed.
+
+Lemma step_dedup_length l : forall s, (length (step_dedup_from doc s l) <= length l)%nat.
+Proof.
+  induction l as [|y t IH]; intros s; cbn [step_dedup_from length]; [lia|].
+  destruct (key doc y =? 0); [specialize (IH s); cbn [length]; lia|].
+  destruct (existsb (N.eqb (key doc y)) s); [specialize (IH s)|specialize (IH (key doc y :: s))]; cbn [length]; lia.
+Qed.
+
 End Sort.
